@@ -218,7 +218,10 @@ func readClusterView(r *messages.Reader) (*ClusterView, error) {
 	if err := r.ReadInto(&viewID, &epoch, &timestamp, &memLen); err != nil {
 		return nil, err
 	}
-	members := make(map[string]*NodeState, memLen)
+	if memLen > maxMapEntries {
+		return nil, fmt.Errorf("members length %d exceeds max %d", memLen, maxMapEntries)
+	}
+	members := make(map[string]*NodeState, min(memLen, 1024))
 	for i := uint32(0); i < memLen; i++ {
 		var id string
 		var has uint8
